@@ -883,9 +883,20 @@ func (m chunkMatchScoreSlice) Less(i, j int) bool { return m[i].Score > m[j].Sco
 
 type fileMatchesByScore []zoekt.FileMatch
 
-func (m fileMatchesByScore) Len() int           { return len(m) }
-func (m fileMatchesByScore) Swap(i, j int)      { m[i], m[j] = m[j], m[i] }
-func (m fileMatchesByScore) Less(i, j int) bool { return m[i].Score > m[j].Score }
+func (m fileMatchesByScore) Len() int      { return len(m) }
+func (m fileMatchesByScore) Swap(i, j int) { m[i], m[j] = m[j], m[i] }
+func (m fileMatchesByScore) Less(i, j int) bool {
+	if m[i].Score != m[j].Score {
+		return m[i].Score > m[j].Score
+	}
+	// Break ties so that the order (and with it the choice of the file that
+	// boostNovelExtension promotes) does not depend on the order in which
+	// shards happened to deliver their results.
+	if m[i].Repository != m[j].Repository {
+		return m[i].Repository < m[j].Repository
+	}
+	return m[i].FileName < m[j].FileName
+}
 
 func sortMatchesByScore(ms []zoekt.LineMatch) {
 	sort.Sort(matchScoreSlice(ms))
